@@ -1,3 +1,4 @@
+import Sparrow.Proofs.KangFnEquiv
 import Sparrow.Proofs.KangArrayLemmas
 import Sparrow.Proofs.KangPipelineLemmas
 import Sparrow.Proofs.KangLemmas
@@ -176,3 +177,75 @@ theorem kangFFArrPar_symm (sc rc nr size : Vec3 ℝ) (thr5 : ℝ) :
   Sparrow.kangFFArrPar_symm sc rc nr size thr5
 
 end Sparrow.Props.C19.Arrays
+
+namespace Sparrow.Props.C19.KangFn
+open Sparrow Sparrow.Generated.KangFn
+
+/-- `_init_energy_exchange` (translated) = `kangInit`, band by band -/
+theorem initEnergyExchange_eq (thr11 dl dm dn ddl ddm sx sy sz power : ℝ) (absorption : Nat → ℝ) (dist : ℝ)
+    (attenuation : Nat → ℝ) (n_bins b : Nat) (hb : b < n_bins) :
+    initEnergyExchange thr11 dl dm dn ddl ddm sx sy sz power absorption dist attenuation n_bins b =
+      kangInit dl dm dn ddl ddm sx sy sz power (absorption b) dist (attenuation b) thr11 :=
+  Sparrow.initEnergyExchange_eq thr11 dl dm dn ddl ddm sx sy sz power absorption dist attenuation n_bins b hb
+
+/-- bands outside `range n_bins` stay zero (`np.zeros(n_bins)`) -/
+theorem initEnergyExchange_outside (thr11 dl dm dn ddl ddm sx sy sz power : ℝ) (absorption : Nat → ℝ) (dist : ℝ)
+    (attenuation : Nat → ℝ) (n_bins b : Nat) (hb : n_bins ≤ b) :
+    initEnergyExchange thr11 dl dm dn ddl ddm sx sy sz power absorption dist attenuation n_bins b = 0 :=
+  Sparrow.initEnergyExchange_outside thr11 dl dm dn ddl ddm sx sy sz power absorption dist attenuation n_bins b hb
+
+/-- `_add_delay` (recognised): a shift that DROPS what is delayed beyond the end — never a wrap-around -/
+theorem addDelay_eq (ir : Nat → ℝ) (n d : Nat) (hd : d ≤ n) :
+    ∃ g, addDelay ir n d = some g ∧ ∀ t, t < n → g t = if t < d then 0 else ir (t - d) :=
+  Sparrow.addDelay_eq ir n d hd
+
+
+theorem addDelay_none (ir : Nat → ℝ) (n d : Nat) (hd : n < d) : addDelay ir n d = none :=
+  Sparrow.addDelay_none ir n d hd
+
+/-- nothing of the cells `ir[n-d .. n)` (what would be delayed beyond the end) re-appears anywhere -/
+theorem addDelay_ignores_tail (ir ir' : Nat → ℝ) (n d : Nat) (hd : d ≤ n) (h : ∀ t, t + d < n → ir t = ir' t) :
+    ∀ g g', addDelay ir n d = some g → addDelay ir' n d = some g' → ∀ t, t < n → g t = g' t :=
+  Sparrow.addDelay_ignores_tail ir ir' n d hd h
+
+/-- per-patch body of `PatchesKang.init_energy_exchange` (recognised) = (`binKang`, `kangInitPatch`) -/
+theorem initEnergyExchangePatch_eq (thr99 thr11 : ℝ) (src center normal size : Nat → ℝ) (power : ℝ)
+    (absorption attenuation : Nat → ℝ) (n_bins : Nat) (c fs : ℝ)
+    (hn : AxisAligned (Vec3.ofFn normal) thr99) :
+    ∃ E, initEnergyExchangePatch thr99 thr11 src center normal size power absorption attenuation n_bins c fs =
+        some (binKang (Vec3.norm (Vec3.sub (Vec3.ofFn center) (Vec3.ofFn src))) c fs, E) ∧
+      ∀ b, b < n_bins → E b = kangInitPatch (Vec3.ofFn normal) (Vec3.ofFn center) (Vec3.ofFn size) (Vec3.ofFn src) power
+        (absorption b) (attenuation b) thr99 thr11 :=
+  Sparrow.initEnergyExchangePatch_eq thr99 thr11 src center normal size power absorption attenuation n_bins c fs hn
+
+/-- a normal with no component above the threshold is refused (AssertionError), not simulated -/
+theorem initEnergyExchangePatch_none (thr99 thr11 : ℝ) (src center normal size : Nat → ℝ) (power : ℝ)
+    (absorption attenuation : Nat → ℝ) (n_bins : Nat) (c fs : ℝ)
+    (h0 : ¬ thr99 < |normal 0|) (h1 : ¬ thr99 < |normal 1|) (h2 : ¬ thr99 < |normal 2|) :
+    initEnergyExchangePatch thr99 thr11 src center normal size power absorption attenuation n_bins c fs = none :=
+  Sparrow.initEnergyExchangePatch_none thr99 thr11 src center normal size power absorption attenuation n_bins c fs h0 h1 h2
+
+/-- innermost body of `PatchesKang.calculate_energy_exchange` (recognised): the order-(k-1) histogram of the source patch, delayed by
+    the centre-to-centre bins with truncation, times form factor × scattering × (1 − absorption) of the RECEIVING wall × exp(−m d) -/
+theorem exchangeContribution_eq (receiver source : Nat → ℝ) (c fs : ℝ) (A : Nat → ℝ) (n : Nat) (ff : ℝ)
+    (absorption scattering att : Nat → ℝ) (f : Nat)
+    (hd : binKang (Vec3.norm (Vec3.sub (Vec3.ofFn receiver) (Vec3.ofFn source))) c fs ≤ n) :
+    ∃ g, exchangeContribution receiver source c fs A n ff absorption scattering att f = some g ∧
+      ∀ t, t < n → g t =
+        if binKang (Vec3.norm (Vec3.sub (Vec3.ofFn receiver) (Vec3.ofFn source))) c fs ≤ t then
+          ff * (scattering f * (1 - absorption f)) *
+            Real.exp (-(att f) * Vec3.norm (Vec3.sub (Vec3.ofFn receiver) (Vec3.ofFn source))) *
+            A (t - binKang (Vec3.norm (Vec3.sub (Vec3.ofFn receiver) (Vec3.ofFn source))) c fs)
+        else 0 :=
+  Sparrow.exchangeContribution_eq receiver source c fs A n ff absorption scattering att f hd
+
+/-- the loop nest of `calculate_energy_exchange`, cell by cell: previous value plus the sum over the patches of all other walls of
+    the delayed, scaled order-(k-1) energies — the right-hand side of `kang_order_recursion` -/
+theorem exchangeCell_eq (before : ℝ) (receiver : Nat → ℝ) (c fs : ℝ) (n : Nat)
+    (walls : List (List ((Nat → ℝ) × (Nat → ℝ) × ℝ))) (absorption scattering att : Nat → ℝ) (f t : Nat) (ht : t < n)
+    (hd : ∀ w ∈ walls, ∀ p ∈ w, binKang (Vec3.norm (Vec3.sub (Vec3.ofFn receiver) (Vec3.ofFn p.1))) c fs ≤ n) :
+    exchangeCell before receiver c fs n walls absorption scattering att f t =
+      some (before + (walls.flatten.map (kangTerm receiver c fs absorption scattering att f t)).sum) :=
+  Sparrow.exchangeCell_eq before receiver c fs n walls absorption scattering att f t ht hd
+
+end Sparrow.Props.C19.KangFn
